@@ -25,7 +25,9 @@ pub enum Sig {
     Domain { loc: Loc, dom: Domain },
     /// any report at `loc` (a tag naming no variant)
     AnyAt { loc: Loc },
-    Foreign { loc: Loc, src: ForeignSrc },
+    /// a conversion / validation failure merged into error type `on` (0 = the container's RecA,
+    /// 1 = a field-level RecB)
+    Foreign { loc: Loc, src: ForeignSrc, on: u8 },
 }
 
 impl Sig {
@@ -73,8 +75,8 @@ impl Sig {
                     _ => false,
                 }
             }
-            Event::Foreign { src, loc, .. } => match self {
-                Sig::Foreign { loc: l2, src: s2 } => loc == l2 && src == s2,
+            Event::Foreign { src, loc, on, .. } => match self {
+                Sig::Foreign { loc: l2, src: s2, on: o2 } => loc == l2 && src == s2 && on == o2,
                 Sig::AnyAt { loc: l2 } => loc == l2,
                 _ => false,
             },
@@ -101,21 +103,48 @@ pub struct RefOut {
 /// camelCase as documented: words are split on `_` and on lower→upper
 /// boundaries, lowercased, and all but the first capitalised.
 pub fn camel(ident: &str) -> String {
+    // word boundaries: `_`, lower→upper, and every letter↔digit change (the established behaviour of
+    // the crate for identifiers with digits: `sha256sum` → `sha256Sum`, `a1b` → `a1B`)
+    #[derive(PartialEq, Clone, Copy)]
+    enum Cls {
+        Lower,
+        Upper,
+        Digit,
+        Other,
+    }
+    let cls = |c: char| {
+        if c.is_ascii_digit() {
+            Cls::Digit
+        } else if c.is_uppercase() {
+            Cls::Upper
+        } else if c.is_lowercase() {
+            Cls::Lower
+        } else {
+            Cls::Other
+        }
+    };
     let mut words: Vec<String> = vec![];
     let mut cur = String::new();
-    let mut prev_lower = false;
+    let mut prev: Option<Cls> = None;
     for ch in ident.chars() {
         if ch == '_' {
             if !cur.is_empty() {
                 words.push(std::mem::take(&mut cur));
             }
-            prev_lower = false;
+            prev = None;
             continue;
         }
-        if ch.is_uppercase() && prev_lower && !cur.is_empty() {
+        let c = cls(ch);
+        let boundary = match (prev, c) {
+            (Some(Cls::Lower), Cls::Upper) => true,
+            (Some(Cls::Digit), Cls::Lower | Cls::Upper) => true,
+            (Some(Cls::Lower | Cls::Upper), Cls::Digit) => true,
+            _ => false,
+        };
+        if boundary && !cur.is_empty() {
             words.push(std::mem::take(&mut cur));
         }
-        prev_lower = ch.is_lowercase();
+        prev = Some(c);
         cur.push(ch);
     }
     if !cur.is_empty() {
@@ -270,7 +299,7 @@ impl<'a> Ctx<'a> {
         if ok {
             Some(v)
         } else {
-            self.report(Sig::Foreign { loc: loc.clone(), src: ForeignSrc::Validate { sum } });
+            self.report(Sig::Foreign { loc: loc.clone(), src: ForeignSrc::Validate { sum }, on: 0 });
             None
         }
     }
@@ -481,6 +510,8 @@ impl<'a> Ctx<'a> {
                                 self.report(Sig::Foreign {
                                     loc: kloc.clone(),
                                     src: ForeignSrc::Conv { fn_name: name.to_string(), arg: Doc::Int(n) },
+                                    // first merged into the field's own error type, if it has one
+                                    on: if f.err_b { 1 } else { 0 },
                                 });
                                 ok = false;
                                 None
@@ -623,6 +654,7 @@ impl<'a> Ctx<'a> {
                         self.report(Sig::Foreign {
                             loc: loc.clone(),
                             src: ForeignSrc::Conv { fn_name: format!("c{i}_fn"), arg: via },
+                            on: 0,
                         });
                         None
                     }
